@@ -96,10 +96,13 @@ theorem unresolvedIn_node (env : Env) (frames : List (List (Nat × Nat))) (v : V
       · simpa [elementFrames_append, List.append_assoc] using hn
 
 /-- What one element contributes (the lemma behind `C09_unresolved_element`). -/
-theorem mem_unresolvedOfElement (env : Env) (top : List (Nat × Nat)) (frames : List (List (Nat × Nat)))
-    (h : FrameInv top frames) (ks : List Tree) (name ns : Nat) :
-    ns ∈ unresolvedOfElement env top (.node (.element name) ks) name ↔
-      NeedsNs env (scopeOf frames) (.node (.element name) ks) ns := by
+theorem mem_unresolvedOfElement_gen (env : Env) (top : List (Nat × Nat)) (frames : List (List (Nat × Nat)))
+    (h : FrameInv top frames) (t : Tree) (name ns : Nat) :
+    ns ∈ unresolvedOfElement env top t name ↔
+      (env.nsOfName name = ns ∧ ns ≠ Env.noNamespace ∧ ns ≠ Env.xmlNamespace ∧
+        ∀ p, scopeOf frames p ≠ some ns) ∨
+      (∃ a ∈ t.attrs.map (·.1), env.nsOfName a = ns ∧ ns ≠ Env.noNamespace ∧
+        ns ≠ Env.xmlNamespace ∧ ∀ p, p ≠ Env.emptyPrefix → scopeOf frames p ≠ some ns) := by
   have hk : ∀ n, knownIn top n = false ↔ ∀ p, scopeOf frames p ≠ some n := by
     intro n
     rw [Bool.eq_false_iff, Ne, knownIn_iff]
@@ -113,24 +116,26 @@ theorem mem_unresolvedOfElement (env : Env) (top : List (Nat × Nat)) (frames : 
     · intro hne p hp0 hp; exact hne ⟨p, hp0, (h.mem p n).2 hp⟩
     · rintro hall ⟨p, hp0, hp⟩; exact hall p hp0 ((h.mem p n).1 hp)
   simp only [unresolvedOfElement, List.mem_append, List.mem_filterMap, elementPrefix_ok,
-    attributePrefix_ok, NeedsNs, Tree.value, Value.element.injEq, exists_eq_left']
+    attributePrefix_ok]
   constructor
   · rintro (h1 | ⟨a, hmem, h1⟩)
-    · by_cases hc : (env.nsOfName name == Env.noNamespace || env.nsOfName name == Env.xmlNamespace ||
+    · left
+      by_cases hc : (env.nsOfName name == Env.noNamespace || env.nsOfName name == Env.xmlNamespace ||
           knownIn top (env.nsOfName name)) = true
       · simp [hc] at h1
       · simp only [hc, Bool.not_false, ↓reduceIte, List.mem_singleton] at h1
         subst h1
         simp only [Bool.or_eq_true, beq_iff_eq, not_or, Bool.not_eq_true] at hc
-        exact ⟨hc.1.1, hc.1.2, .inl ⟨rfl, (hk _).1 hc.2⟩⟩
-    · by_cases hc : (env.nsOfName a == Env.noNamespace || env.nsOfName a == Env.xmlNamespace ||
+        exact ⟨rfl, hc.1.1, hc.1.2, (hk _).1 hc.2⟩
+    · right
+      by_cases hc : (env.nsOfName a == Env.noNamespace || env.nsOfName a == Env.xmlNamespace ||
           attrKnownIn top (env.nsOfName a)) = true
       · simp [hc] at h1
       · simp only [hc, Bool.not_false, ↓reduceIte, Option.some.injEq] at h1
         subst h1
         simp only [Bool.or_eq_true, beq_iff_eq, not_or, Bool.not_eq_true] at hc
-        exact ⟨hc.1.1, hc.1.2, .inr ⟨a, hmem, rfl, (ha _).1 hc.2⟩⟩
-  · rintro ⟨h0, h1, ⟨rfl, h2⟩ | ⟨a, hmem, rfl, h2⟩⟩
+        exact ⟨a, hmem, rfl, hc.1.1, hc.1.2, (ha _).1 hc.2⟩
+  · rintro (⟨rfl, h0, h1, h2⟩ | ⟨a, hmem, rfl, h0, h1, h2⟩)
     · left
       have : (env.nsOfName name == Env.noNamespace || env.nsOfName name == Env.xmlNamespace ||
           knownIn top (env.nsOfName name)) = false := by
@@ -142,6 +147,20 @@ theorem mem_unresolvedOfElement (env : Env) (top : List (Nat × Nat)) (frames : 
           attrKnownIn top (env.nsOfName a)) = false := by
         simp [h0, h1, (ha _).2 h2]
       simp [this]
+
+theorem mem_unresolvedOfElement (env : Env) (top : List (Nat × Nat)) (frames : List (List (Nat × Nat)))
+    (h : FrameInv top frames) (ks : List Tree) (name ns : Nat) :
+    ns ∈ unresolvedOfElement env top (.node (.element name) ks) name ↔
+      NeedsNs env (scopeOf frames) (.node (.element name) ks) ns := by
+  rw [mem_unresolvedOfElement_gen env top frames h]
+  simp only [NeedsNs, Tree.value, Value.element.injEq, exists_eq_left']
+  constructor
+  · rintro (⟨h1, h2, h3, h4⟩ | ⟨a, ha, h1, h2, h3, h4⟩)
+    · exact ⟨h2, h3, .inl ⟨h1, h4⟩⟩
+    · exact ⟨h2, h3, .inr ⟨a, ha, h1, h4⟩⟩
+  · rintro ⟨h2, h3, ⟨h1, h4⟩ | ⟨a, ha, h1, h4⟩⟩
+    · exact .inl ⟨h1, h2, h3, h4⟩
+    · exact .inr ⟨a, ha, h1, h2, h3, h4⟩
 
 theorem unresolvedRec_other (env : Env) (top : List (Nat × Nat)) (v : Value) (ks : List Tree)
     (h : v.isElement = false) :
